@@ -43,3 +43,38 @@ mut("C03", "r7-api-internal", "api/database.go",
     "db:             database.NewInterface(nil),\n\t\tsendBytes:", "db:             database.NewInterface(&database.Options{Internal: true}),\n\t\tsendBytes:", "C03-R7|NewInterface")
 mut("C03", "r8-reset-clears-flag", "database/record/meta.go",
     "func (m *Meta) Reset() {", "func (m *Meta) Reset() {\n\tm.secret = false", "C03-R8|store Meta.secret")
+
+# ---- C01 -------------------------------------------------------------------
+mut("C01", "r1-start-dep-starting", "modules/status.go",
+    "if dep.Status() < StatusOnline {", "if dep.Status() < StatusStarting {", "C01-R1|readyToStart", canary=True)
+mut("C01", "r1-stop-revdep", "modules/status.go",
+    "if revDep.Status() > StatusOffline {", "if revDep.Status() > StatusStarting {", "C01-R1|readyToStop")
+mut("C01", "r1-prep-dep", "modules/status.go",
+    "if dep.Status() < StatusOffline {", "if dep.Status() < StatusPreparing {", "C01-R1|readyToPrep")
+mut("C01", "r1-stop-mgmt-ignored", "modules/status.go",
+    "if m.enabled.IsSet() || m.enabledAsDependency.IsSet() {\n\t\t\treturn statusNothingToDo", "if m.enabled.IsSet() && m.enabledAsDependency.IsSet() {\n\t\t\treturn statusNothingToDo", "C01-R1|readyToStop")
+mut("C01", "r1-start-self-any", "modules/status.go",
+    "\tif m.Status() != StatusOffline {\n\t\treturn statusNothingToDo\n\t}", "\tif m.Status() > StatusOffline {\n\t\treturn statusNothingToDo\n\t}", "C01-R1|readyToStart")
+mut("C01", "r2-start-in-waiting-arm", "modules/start.go",
+    "\t\t\tcase statusWaiting:\n\t\t\t\twaiting++\n\t\t\tcase statusReady:\n\t\t\t\texecCnt++\n\t\t\t\tm.start(reports)", "\t\t\tcase statusWaiting:\n\t\t\t\twaiting++\n\t\t\t\tfallthrough\n\t\t\tcase statusReady:\n\t\t\t\texecCnt++\n\t\t\t\tm.start(reports)", "C01-R2|startModules")
+mut("C01", "r3-start-no-offline-test", "modules/modules.go",
+    "\tif m.status != StatusOffline {\n\t\tm.Unlock()\n\t\tgo func() {\n\t\t\treports <- &report{\n\t\t\t\tmodule: m,\n\t\t\t\terr:    fmt.Errorf(\"module not offline\"),\n\t\t\t}\n\t\t}()\n\t\treturn\n\t}\n", "", "C01-R3|StatusStarting / predecessor state")
+mut("C01", "r3-online-before-error-test", "modules/modules.go",
+    "\t\t// set status\n\t\tif err != nil {\n\t\t\t// Reset the status", "\t\tm.Lock()\n\t\tm.status = StatusOnline\n\t\tm.Unlock()\n\t\t// set status\n\t\tif err != nil {\n\t\t\t// Reset the status", "C01-R3|StatusOnline")
+mut("C01", "r3-unlocked-store", "modules/modules.go",
+    "\tm.Lock()\n\tm.status = StatusOffline\n\tm.Unlock()\n\tm.notifyOfChange()\n\n\t// Resolve any errors", "\tm.status = StatusOffline\n\tm.notifyOfChange()\n\n\t// Resolve any errors", "C01-R3|under module lock")
+mut("C01", "r3-foreign-store", "modules/mgmt.go",
+    "func (m *Module) markDependencies() {", "func (m *Module) markDependencies() {\n\tm.Lock()\n\tm.status = StatusOffline\n\tm.Unlock()", "C01-R3|markDependencies")
+mut("C01", "r4-start-failure-stuck", "modules/modules.go",
+    "\t\t\tm.Lock()\n\t\t\tm.status = StatusOffline\n\t\t\tm.Unlock()\n\t\t\tm.Error(\n\t\t\t\tfmt.Sprintf(\"%s:start-failed\"", "\t\t\tm.Error(\n\t\t\t\tfmt.Sprintf(\"%s:start-failed\"", "C01-R4|start$2")
+mut("C01", "r4-stop-error-early-report", "modules/modules.go",
+    "\t\tif err != nil {\n\t\t\t// Set error as module error.", "\t\tif err != nil {\n\t\t\treports <- &report{module: m, err: err}\n\t\t\treturn\n\t\t}\n\t\tif err != nil {\n\t\t\t// Set error as module error.", "C01-R4|stopAllTasks")
+mut("C01", "r5-manage-swap", "modules/mgmt.go",
+    "\t// stop unneeded modules\n\tlastErr := stopModules()\n\tif lastErr != nil {\n\t\tlog.Warning(lastErr.Error())\n\t}\n\n\t// start needed modules\n\terr := startModules()\n\tif err != nil {\n\t\tlog.Warning(err.Error())\n\t\tlastErr = err\n\t}",
+    "\t// start needed modules\n\tlastErr := startModules()\n\tif lastErr != nil {\n\t\tlog.Warning(lastErr.Error())\n\t}\n\n\t// stop unneeded modules\n\terr := stopModules()\n\tif err != nil {\n\t\tlog.Warning(err.Error())\n\t\tlastErr = err\n\t}", "C01-R5|ManageModules")
+mut("C01", "r5-manage-no-lock", "modules/mgmt.go",
+    "\t// lock mgmt\n\tmgmtLock.Lock()\n\tdefer mgmtLock.Unlock()\n\n\tlog.Info(\"modules: managing changes\")", "\tlog.Info(\"modules: managing changes\")", "C01-R5|mgmtLock")
+mut("C01", "r5-start-tree-after-start", "modules/start.go",
+    "\t// build dependency tree\n\tbuildEnabledTree()\n\n\t// start modules\n\tlog.Info(\"modules: initiating...\")\n\terr = startModules()", "\t// start modules\n\tlog.Info(\"modules: initiating...\")\n\terr = startModules()\n\tbuildEnabledTree()", "C01-R5|modules.Start")
+mut("C01", "r6-stop-ignores-waiting", "modules/stop.go",
+    "\t\t\tif waiting > 0 {\n\t\t\t\t// check for dep loop\n\t\t\t\treturn fmt.Errorf(\"modules: dependency loop detected, cannot continue\")\n\t\t\t}\n\t\t\t// return last error\n\t\t\treturn lastErr", "\t\t\tif waiting > startedCnt {\n\t\t\t\t// check for dep loop\n\t\t\t\treturn fmt.Errorf(\"modules: dependency loop detected, cannot continue\")\n\t\t\t}\n\t\t\t// return last error\n\t\t\treturn lastErr", "C01-R6|stopModules")
